@@ -43,6 +43,36 @@ def fields(verdict):
     return f
 
 
+def stab_through_vertex(tokline):
+    """Polygonal input: does the horizontal ray to the right of the rightmost vertex of some ring pass exactly through a VERTEX of
+    another ring (same y bit pattern, larger x)?  That is the degenerate configuration of SubgraphDepthLocater's stabbing line
+    (depth of a ring subgraph taken from the nearest stabbed segment), which is exact only for vertex-free hits."""
+    try:
+        g = gtok.parse(tokline)[1]
+    except Exception:
+        return False
+    rings = []
+    def walk(e):
+        if e[0] == "Y":
+            for r in e[1]:
+                pts = [(gtok._dec(p[0]), gtok._dec(p[1])) for p in r[1]]
+                if pts:
+                    rings.append(pts)
+        elif e[0] in gtok.COLL:
+            for x in e[1]:
+                walk(x)
+    walk(g)
+    for i, r in enumerate(rings):
+        mx = max(p[0] for p in r)
+        for (x, y) in r:
+            if x != mx:
+                continue
+            for j, r2 in enumerate(rings):
+                if j != i and any(y2 == y and x2 > x for (x2, y2) in r2):
+                    return True
+    return False
+
+
 def signature(case, verdict):
     """Structural key of a failing buffer case (matched against KNOWN_FINDINGS.json).
     mode    : buf (area buffer) | ss (single-sided through GEOSBufferParams) | oc (GEOSOffsetCurve) | ssb (GEOSSingleSidedBuffer)
@@ -86,6 +116,8 @@ def signature(case, verdict):
         if ring:
             return {"mode": mode, "band": band, "selfCrossingRing": True}
         sig = {"mode": mode, "band": band, "tier": tier, "selfCrossingRing": False}
+        if tier == "gross":
+            sig["stabThroughVertex"] = stab_through_vertex(parts_of(case)[1])
         if band == "e":
             sig["qle5"] = q <= 5
         return sig
